@@ -194,10 +194,12 @@ func sweep(r *vcore.Run) {
 			n = 6
 		}
 		prog := singleOp(j.op, kinds, n)
-		if j.op == "ToBinary" { // also the short width
+		if j.op == "ToBinary" { // also a short width and one wider than the field
 			defer func() {
 				p3 := singleOp(j.op, kinds, 3)
 				sweepProgram(r, rng, p3, cidx, vidx, j.builder)
+				p8 := singleOp(j.op, kinds, 8)
+				sweepProgram(r, rng, p8, cidx, vidx, j.builder)
 			}()
 		}
 		sweepProgram(r, rng, prog, cidx, vidx, j.builder)
